@@ -18,12 +18,14 @@ import (
 	"fmt"
 	"runtime"
 	"sort"
+	"strconv"
 	"strings"
 	"sync"
 	"sync/atomic"
 	"testing"
 	"time"
 
+	"github.com/zeromicro/go-zero/core/mathx"
 	"github.com/zeromicro/go-zero/core/timex"
 	"github.com/zeromicro/go-zero/internal/verifh"
 )
@@ -80,6 +82,8 @@ func c12Ops(r *verifh.Rng, n, interval int, g c12GenCfg) []string {
 		nkeys = r.Range(6, 40) // many timers per slot
 	}
 	var ops []string
+	arms := 0                 // scripts registered so far (see the arm class below)
+	big := false              // the big re-entrant Drain class is used once per section
 	abs := 0                  // ticks issued so far
 	phys := map[int]int{}     // key -> absolute tick at which the slot it was last placed in is scanned
 	tick := func(c int) {
@@ -214,6 +218,66 @@ func c12Ops(r *verifh.Rng, n, interval int, g c12GenCfg) []string {
 				move(k)
 			default:
 				set(k)
+			}
+		case x == 66 && g.api && !big:
+			// Drain with more pending timers than drainWorkers whose callbacks all call back into the wheel (what
+			// cleaner.go's clean does at shutdown): the hand-off to the workers must not block the run loop
+			big = true
+			m := r.Pick(9, 9, 10, 12, 17, 30)
+			for i := 0; i < m; i++ {
+				kk := 200 + i
+				switch r.Intn(5) {
+				case 0:
+					ops = append(ops, fmt.Sprintf("arm %d remove %d", kk, kk))
+				case 1:
+					ops = append(ops, fmt.Sprintf("arm %d move %d %d", kk, kk, delay(kk)))
+				default:
+					ops = append(ops, fmt.Sprintf("arm %d set %d %d %d", kk, kk, r.Intn(1000), delay(kk)))
+				}
+				ops = append(ops, fmt.Sprintf("set %d %d %d", kk, r.Intn(1000), delay(kk)))
+			}
+			if r.Chance(1, 3) {
+				someTicks()
+			}
+			ops = append(ops, "drain")
+			someTicks()
+		case x >= 60 && x < 66 && g.api && arms < 6:
+			// a callback (execute or Drain) that calls back into the wheel while it runs: it re-arms its own key
+			// (cleaner.go's clean), removes it (cache.go's expiry callback), moves it (a no-op: the key is gone), or
+			// touches a key of its own (100+k; a delay below one interval there runs a nested callback at once).
+			// (the class above covers many such callbacks in one Drain)
+			arms++
+			tgt := k
+			if r.Chance(1, 3) {
+				tgt = 100 + k
+			}
+			var call string
+			switch r.Intn(8) {
+			case 0, 1, 2, 3:
+				call = fmt.Sprintf("set %d %d %d", tgt, r.Intn(1000), delay(tgt))
+			case 4:
+				call = fmt.Sprintf("move %d %d", tgt, delay(tgt))
+			case 5:
+				call = fmt.Sprintf("remove %d", tgt)
+			case 6:
+				call = fmt.Sprintf("move %d %d", tgt, r.Range(1, interval))
+			default:
+				call = fmt.Sprintf("set %d %d %d", tgt, r.Intn(1000), r.Pick(0, -1, 1, interval))
+			}
+			ops = append(ops, fmt.Sprintf("arm %d %s", k, call))
+			if r.Chance(2, 3) {
+				set(k)
+			}
+			if tgt != k && r.Bool() {
+				set(tgt)
+			}
+			switch r.Intn(4) {
+			case 0:
+				ops = append(ops, "drain")
+			case 1:
+				someTicks()
+			case 2:
+				ops = append(ops, fmt.Sprintf("move %d %d", k, r.Range(1, interval)))
 			}
 		case x < 60 && g.api:
 			switch r.Intn(6) {
@@ -374,12 +438,69 @@ func c12GenAPI(r *verifh.Rng) []verifh.Section {
 type c12Sink struct {
 	mu    sync.Mutex
 	fired []string
+	inner []string
+	arms  map[int][][]string // key -> queue of calls to issue from inside the next callbacks of that key
+	tw    *TimingWheel
 }
 
+// exec is the execute / Drain callback. If a script is registered for the key, its call is issued on the wheel
+// from inside the callback, before the callback returns.
 func (s *c12Sink) exec(k, v any) {
 	s.mu.Lock()
 	s.fired = append(s.fired, fmt.Sprintf("%v:%v", k, v))
+	var call []string
+	ki, isInt := k.(int)
+	if isInt && len(s.arms[ki]) > 0 {
+		call = s.arms[ki][0]
+		s.arms[ki] = s.arms[ki][1:]
+	}
 	s.mu.Unlock()
+	if call == nil {
+		return
+	}
+	var err error
+	switch call[0] {
+	case "set":
+		err = s.tw.SetTimer(c12Key(call[1]), verifh.Atoi(call[2]), time.Duration(verifh.Atoi(call[3])))
+	case "move":
+		err = s.tw.MoveTimer(c12Key(call[1]), time.Duration(verifh.Atoi(call[2])))
+	case "remove":
+		err = s.tw.RemoveTimer(c12Key(call[1]))
+	}
+	res := "ok"
+	if err != nil {
+		res = c12Err(err)
+	}
+	// stay inside the callback until the run loop has handled the call (it has when it accepts the next request)
+	_ = s.tw.RemoveTimer(c12Sentinel)
+	s.mu.Lock()
+	s.inner = append(s.inner, fmt.Sprintf("in%d=%s", ki, res))
+	s.mu.Unlock()
+}
+
+// entered / returned: callbacks that have started / whose inner call (if any) has returned
+func (s *c12Sink) progress() (entered, returned, waiting int) {
+	s.mu.Lock()
+	defer s.mu.Unlock()
+	for _, q := range s.arms {
+		waiting += len(q)
+	}
+	return len(s.fired), len(s.inner), waiting
+}
+
+func (s *c12Sink) arm(k int, call []string) {
+	s.mu.Lock()
+	if s.arms == nil {
+		s.arms = map[int][][]string{}
+	}
+	s.arms[k] = append(s.arms[k], call)
+	s.mu.Unlock()
+}
+
+func (s *c12Sink) count() int {
+	s.mu.Lock()
+	defer s.mu.Unlock()
+	return len(s.fired) + len(s.inner)
 }
 
 // collect joins the callback goroutines of the last operation (the goroutine count is back at its resting
@@ -394,10 +515,20 @@ func (s *c12Sink) collect(base *int) string {
 	}
 	s.mu.Lock()
 	out := s.fired
-	s.fired = nil
+	in := s.inner
+	s.fired, s.inner = nil, nil
 	s.mu.Unlock()
 	sort.Slice(out, func(i, j int) bool { return c12Less(out[i], out[j]) })
-	return strings.Join(out, " ")
+	sort.SliceStable(in, func(i, j int) bool {
+		var a, b int
+		fmt.Sscanf(in[i], "in%d=", &a)
+		fmt.Sscanf(in[j], "in%d=", &b)
+		if a != b {
+			return a < b
+		}
+		return in[i] < in[j] // callbacks of one operation run concurrently: canonical order
+	})
+	return strings.Join(append(out, in...), " ")
 }
 
 // c12Less orders `k:v` tokens numerically by key, then value (the driver prints the model's pairs in this order).
@@ -528,7 +659,7 @@ func TestVerifC12WB(t *testing.T) {
 			case "drain":
 				tw.drainAll(sink.exec)
 			default:
-				return "bad-op"
+				return "bad-op" // also `arm`: the white-box mode has no run loop a callback could call
 			}
 			return sink.collect(&base)
 		}
@@ -562,6 +693,7 @@ func TestVerifC12(t *testing.T) {
 		if err != nil {
 			panic(err)
 		}
+		sink.tw = tw
 		stopped := false
 		hung := false // a call did not return: the rest of the section is not executed
 		waitLoop := func() {
@@ -628,6 +760,7 @@ func TestVerifC12(t *testing.T) {
 			}
 			return false, "undelivered"
 		}
+		pendingBefore := 0
 		step := func(op []string) string {
 			if hung {
 				return "TIMEOUT-skipped"
@@ -652,7 +785,14 @@ func TestVerifC12(t *testing.T) {
 					return note
 				}
 			case "drain":
+				pendingBefore = tw.timers.Size() // the run loop is idle: the previous operation has been joined
 				call(func() error { return tw.Drain(sink.exec) })
+			case "arm":
+				if len(op) < 4 || (op[2] != "set" && op[2] != "move" && op[2] != "remove") {
+					return "bad-op"
+				}
+				sink.arm(verifh.Atoi(op[1]), op[2:])
+				return "armed"
 			case "stop":
 				call(func() error { tw.Stop(); return nil }) // a second Stop panics: recorded by verifh as PANIC
 				stopped = true
@@ -670,9 +810,27 @@ func TestVerifC12(t *testing.T) {
 			if err != nil {
 				return c12Err(err)
 			}
-			waitLoop()
-			if hung {
-				return "TIMEOUT-loop"
+			// callbacks may call back into the wheel and those calls may run further callbacks: wait for the loop and
+			// join the callback goroutines until nothing new has happened
+			for round, last := 0, -1; round < 8; round++ {
+				waitLoop()
+				if hung {
+					if op[0] == "drain" {
+						// stuck watchdog: the run loop accepted Drain and no longer accepts anything
+						entered, returned, _ := sink.progress()
+						return fmt.Sprintf("STALLED drain: run loop blocked, %d of %d pending timers reached their callback, only %d callbacks returned from their call on the wheel",
+							entered, pendingBefore, returned)
+					}
+					return "TIMEOUT-loop"
+				}
+				if !verifh.SettleGoroutines(base, 5*time.Second) {
+					return "TIMEOUT-goroutines"
+				}
+				n := sink.count()
+				if n == last || (round == 0 && n == 0) {
+					break
+				}
+				last = n
 			}
 			return sink.collect(&base)
 		}
@@ -707,4 +865,152 @@ func c12CtorStep(op []string) string {
 	tw.Stop()
 	verifh.SettleGoroutines(before, 2*time.Second)
 	return "ok"
+}
+
+// ---------------------------------------------------------------------------------------------- cache.go
+
+// c12GenCache: core/collection/cache.go as a client of the wheel. Keys are set with expiries below, at and above
+// one interval (one second), up to and beyond one revolution (300 slots), with expiries <= 0 (SetTimer rejects
+// them: the entry never expires), set again while pending, deleted while pending, set again after expiry.
+func c12GenCache(r *verifh.Rng) []verifh.Section {
+	const sec = 1000000000
+	var secs []verifh.Section
+	for i := verifh.Scale(12, 120); i > 0; i-- {
+		expire := r.Pick(1, 2, 3, 5, 299, 300, 301) * sec
+		nkeys := r.Range(1, 5)
+		var ops []string
+		tick := func(c int) {
+			for j := 0; j < c; j++ {
+				ops = append(ops, "tick")
+			}
+		}
+		exp := func() int {
+			switch r.Intn(10) {
+			case 0:
+				return r.Pick(1, sec/2, sec-1) // below one interval: clamped, gone at the next tick
+			case 1:
+				return r.Pick(0, -1, -sec) // rejected by SetTimer: stays until deleted
+			case 2:
+				return r.Pick(299, 300, 301, 600, 601) * sec
+			case 3:
+				return r.Range(1, 4)*sec + r.Intn(sec)
+			default:
+				return r.Range(1, 6) * sec
+			}
+		}
+		for j := r.Range(5, 40); j > 0; j-- {
+			k := r.Intn(nkeys)
+			switch x := r.Intn(10); {
+			case x < 3:
+				ops = append(ops, fmt.Sprintf("cset %d %d %d", k, r.Intn(1000), exp()))
+			case x < 4:
+				ops = append(ops, fmt.Sprintf("cput %d %d", k, r.Intn(1000)))
+			case x < 5:
+				ops = append(ops, fmt.Sprintf("cdel %d", k))
+			case x < 6:
+				tick(r.Pick(1, 2, 298, 299, 300, 301))
+			default:
+				tick(r.Range(1, 3))
+			}
+		}
+		tick(r.Pick(1, 6, 302))
+		secs = append(secs, verifh.Section{Cfg: fmt.Sprintf("n=300 interval=%d mode=cache expire=%d", sec, expire), Ops: ops})
+	}
+	return secs
+}
+
+// TestVerifC12Cache: the real Cache; its wheel is rebuilt with the same interval, slots and callback on a
+// harness ticker (the callback is wrapped to observe what it is handed), the expiry jitter is switched off.
+func TestVerifC12Cache(t *testing.T) {
+	secs := verifh.Sections(c12GenCache)
+	verifh.Run(t, secs, func(cfg verifh.Cfg) (func(op []string) string, func()) {
+		before := c12Base()
+		c, err := NewCache(time.Duration(verifh.Atoi64(cfg.Str("expire", "1000000000"))))
+		if err != nil {
+			panic(err)
+		}
+		orig := c.timingWheel
+		sink := &c12Sink{}
+		ticker := &c12Ticker{c: make(chan time.Time)}
+		tw, err := NewTimingWheelWithTicker(orig.interval, orig.numSlots, func(k, v any) {
+			sink.exec(k, v)
+			orig.execute(k, v)
+		}, ticker)
+		if err != nil {
+			panic(err)
+		}
+		orig.Stop()
+		c.timingWheel = tw
+		c.unstableExpiry = mathx.NewUnstable(0)
+		worker := newC12Worker()
+		hung := false
+		waitLoop := func() {
+			if !worker.do(func() { _ = tw.RemoveTimer(c12Sentinel) }) {
+				hung = true
+			}
+		}
+		waitLoop()
+		base := c12Base()
+		step := func(op []string) string {
+			if hung {
+				return "TIMEOUT-skipped"
+			}
+			ok := true
+			switch op[0] {
+			case "cset":
+				ok = worker.do(func() { c.SetWithExpire(op[1], verifh.Atoi(op[2]), time.Duration(verifh.Atoi64(op[3]))) })
+			case "cput":
+				ok = worker.do(func() { c.Set(op[1], verifh.Atoi(op[2])) })
+			case "cdel":
+				ok = worker.do(func() { c.Del(op[1]) })
+			case "tick":
+				ok = worker.do(func() { ticker.c <- time.Time{} })
+			default:
+				return "bad-op"
+			}
+			if !ok {
+				hung = true
+				return "TIMEOUT-call"
+			}
+			for round, last := 0, -1; round < 8; round++ {
+				waitLoop()
+				if hung {
+					return "TIMEOUT-loop"
+				}
+				if !verifh.SettleGoroutines(base, 5*time.Second) {
+					return "TIMEOUT-goroutines"
+				}
+				n := sink.count()
+				if n == last || (round == 0 && n == 0) {
+					break
+				}
+				last = n
+			}
+			out := sink.collect(&base)
+			c.lock.Lock()
+			var keys []int
+			for k := range c.data {
+				n, _ := strconv.Atoi(k)
+				keys = append(keys, n)
+			}
+			c.lock.Unlock()
+			sort.Ints(keys)
+			has := "-"
+			if len(keys) > 0 {
+				ss := make([]string, len(keys))
+				for i, k := range keys {
+					ss[i] = strconv.Itoa(k)
+				}
+				has = strings.Join(ss, ",")
+			}
+			return strings.TrimSpace(out + " has=" + has)
+		}
+		return step, func() {
+			tw.Stop()
+			if !hung {
+				close(worker.req)
+			}
+			_ = before
+		}
+	})
 }
